@@ -44,6 +44,7 @@ def tool_cases(draw, name, tier):
         for s in case["srcs"]:
             s["fl"] = draw(st.sampled_from(["agen", "aclass", "aplain", "aclass", "aclass_noclose", "agenlike"]))
             s["susp"] = draw(st.integers(1, 2))
+            s["cret"] = draw(st.sampled_from([None, None, True]))
     else:
         case["srcs"][0]["fl"] = "async"
         case["srcs"][0]["susp"] = 1
